@@ -217,11 +217,13 @@ class Folder:
             if sub in ('math.inf', 'math.nan', 'math.pi', 'math.e', 'math.tau'):
                 import math as _math
                 return getattr(_math, attr)
+            if sub == 'typing.TYPE_CHECKING':
+                return False            # what it is at run time
             return ExtRef(sub)
         if name in _BUILTINS:
             return _BUILTINS[name]
-        if name in ('True', 'False', 'None'):
-            return {'True': True, 'False': False, 'None': None}[name]
+        if name in ('True', 'False', 'None', '__debug__'):
+            return {'True': True, 'False': False, 'None': None, '__debug__': True}[name]
         raise Unfoldable(f'unknown global {m.name}.{name}')
 
     def _destructure(self, target, val, name):
@@ -304,6 +306,8 @@ class Folder:
                 import errno as _errno          # a table of integer constants of the platform, nothing else
                 if isinstance(getattr(_errno, e.attr, None), int):
                     return getattr(_errno, e.attr)
+            if base.name == 'typing' and e.attr == 'TYPE_CHECKING':
+                return False
             return ExtRef(f'{base.name}.{e.attr}')
         raise Unfoldable(key)
 
